@@ -448,6 +448,13 @@ def loop_scenarios(quick, rnd):
                 for ps in sets:
                     for chunks in ([len(body)], [2, len(body)]) if not quick else ([len(body)],):
                         out.append({"n": len(body), "body": body, "w": w, "maxp": maxp, "scripts": ps, "chunks": chunks})
+    # an honest peer that is slow once on a large request (time-out without being dropped) and is the only one with the blocks:
+    # it must be asked again; long chains so that its measured throughput makes requests larger than two items
+    for w, maxp in ((4, 4), (4, 2)) if quick else ((3, 3), (4, 4), (4, 2), (5, 5)):
+        for n, empties in ((12, ()), (16, (5,)), (14, (2, 9))):
+            body = [0 if i in empties else 1 + (i % 3) for i in range(n)]
+            for ps in ({"p1": "slowbig"}, {"p1": "slowbig", "p2": "empty"}):
+                out.append({"n": n, "body": body, "w": w, "maxp": maxp, "scripts": ps, "chunks": [n]})
     return out
 
 
@@ -455,17 +462,21 @@ def loop_stage(ctx):
     """spec/DlLoop.tla (design) and the real fetchBodies/fetchParts loop of a partial Downloader with scripted peers."""
     quick = ctx.quick
     ctx.assumptions += ["loop stage: the real fetchBodies/fetchParts loop of a partially constructed Downloader (real queue, peer set, peer connections) "
-                        "runs against scripted peers (honest / stall / empty / liar / partial) with a consumer taking results as processFullSyncContent does; "
+                        "runs against scripted peers (honest / stall / empty / liar / partial / slowbig = honest but slow once on a large request) with a consumer taking results as processFullSyncContent does; "
                         "its schedule (goroutines, 100 ms ticker, 45 ms request TTL) is not controlled: the verdict uses only the order-robust observables -- "
-                        "the batches the consumer received and how the loop ended; every scenario has an honest peer"]
+                        "the batches the consumer received and how the loop ended (a loop still running after 12 s -- scenarios end within a second -- is the "
+                        "verdict 'hang', named peer_never_idle_again when an honest peer holds no request while its real activity flag is set); "
+                        "every scenario has an honest peer"]
     # design level: chains with runs of empty blocks around the window size, one and two peers
     runs = [(1100, '"p1"', 4, 2), (1001, '"p1", "p2"', 4, 2)]
     if not quick:
         runs = [(code, ps, 4, 2) for code in (0, 1, 10, 11, 100, 101, 110, 111, 1000, 1001, 1010, 1011, 1100, 1101, 1110, 1111) for ps in ('"p1", "p2"',)]
         runs += [(code, '"p1"', 4, 2) for code in (0, 1000, 1100, 1110)]
         runs += [(10001, '"p1", "p2"', 5, 3), (11000, '"p1"', 5, 3), (10010, '"p1", "p2"', 5, 2)]
-    for code, ps, n, w in runs:
-        c = dict(name="L", N=n, body=code, W=w, maxp=2, peers=2, maxc=2)
+    runs += [(1111, '"p1"', 4, 3, 3), (11011, '"p1", "p2"', 5, 3, 3)]      # requests of three items: the slow-once time-out of an honest peer
+    for run in runs:
+        code, ps, n, w = run[:4]
+        c = dict(name="L", N=n, body=code, W=w, maxp=2, peers=2, maxc=run[4] if len(run) > 4 else 2)
         text = consts(c, honest='"p1"', faults=2).replace('Peers = {"p1", "p2"}', "Peers = {%s}" % ps)
         m = ctx.tlc_must("DlLoop", L_CFG_LIVE + text, name="LM_%d_%d" % (code, ps.count("p")), timeout=900)
         if m.violated:
@@ -485,8 +496,9 @@ def loop_stage(ctx):
         if e.get("ev") == "LoopEnd":
             ends[e["res"]["err"]] = ends.get(e["res"]["err"], 0) + 1
     ctx.cov["loop_endings"] = ends
-    if ends.get("driver-timeout") and not ctx.violations:
-        raise vlib.Undecided("loop stage: %d scenarios did not end within 30 s" % ends["driver-timeout"])
+    ctx.cov["loop_slow_peer_timeouts"] = sum(e["res"].get("stalls", 0) for e in vlib.read_ndjson(trace) if e.get("ev") == "LoopEnd")
+    if not ctx.cov["loop_slow_peer_timeouts"] and not ctx.violations:
+        raise vlib.Undecided("loop stage: no scenario made the slow honest peer time out on a large request (vacuous)")
 
 
 def replay(ctx, path):
